@@ -219,3 +219,40 @@ Proof.
   rewrite <- (eval_fn_mono _ _ _ _ _ H2 N2 (max n m) (Nat.le_max_r n m)).
   reflexivity.
 Qed.
+
+(* ---------------------------------------------------------------------------------------- *)
+(* the checked operators keep integers inside the range of their type                        *)
+Lemma arith_in_range i o a b v :
+  (o = Add \/ o = Sub \/ o = Mul) ->
+  in_range i a = true -> in_range i b = true ->
+  int_arith o i a b = OVal (VInt v) -> in_range i v = true.
+Proof.
+  intros Ho Ha Hb H. apply in_range_spec in Ha, Hb. apply in_range_spec.
+  pose proof (imin_le_0 i) as Hlo. pose proof (imax_ge_0 i) as Hhi.
+  unfold int_arith, panic_str in H.
+  destruct Ho as [->|[->| ->]].
+  - destruct (Z.gtb_spec (a + b) (imax i)); [discriminate|].
+    destruct (Z.ltb_spec (a + b) (imin i)); [discriminate|]. inversion H; subst. lia.
+  - destruct (isigned i) eqn:Hs.
+    + destruct (Z.gtb_spec (a - b) (imax i)); [discriminate|].
+      destruct (Z.ltb_spec (a - b) (imin i)); [discriminate|]. inversion H; subst. lia.
+    + rewrite (imin_unsigned i Hs) in *.
+      destruct (Z.ltb_spec (a - b) 0); [discriminate|]. inversion H; subst. lia.
+  - destruct (in_range i (a * b)) eqn:R; [|discriminate]. inversion H; subst.
+    apply in_range_spec. exact R.
+Qed.
+
+Lemma neg_in_range i a v :
+  in_range i a = true -> unop_sem Neg (TInt i) (VInt a) = OVal (VInt v) -> in_range i v = true.
+Proof.
+  intros Ha H. apply in_range_spec in Ha. apply in_range_spec. cbn in H.
+  destruct (isigned i) eqn:Hs; [|discriminate].
+  destruct (Z.eqb_spec a (imin i)); [discriminate|]. inversion H; subst.
+  assert (imin i = - imax i - 1) by (destruct i; try discriminate; reflexivity). lia.
+Qed.
+
+Lemma try_cast_in_range i j a v :
+  cast_sem CTry (TInt i) (TInt j) (VInt a) = OVal (VSome (VInt v)) -> in_range j v = true.
+Proof.
+  cbn. destruct (in_range j a) eqn:R; intros H; inversion H; subst. exact R.
+Qed.
